@@ -4509,12 +4509,23 @@ class ParameterizedMetaclass(type):
         parameter,owning_class = mcs.get_param_descriptor(attribute_name)
 
         if parameter and not isinstance(value,Parameter):
-            if owning_class != mcs:
+            inherited = owning_class != mcs
+            if inherited:
+                inherited_default = parameter.default
                 parameter = copy.copy(parameter)
                 parameter.owner = mcs
                 type.__setattr__(mcs,attribute_name,parameter)
                 mcs._clear_params_cache()
-            mcs.__dict__[attribute_name].__set__(None,value)
+            try:
+                mcs.__dict__[attribute_name].__set__(None,value)
+            except Exception:
+                # A rejected value must not leave this class with its own
+                # copy of the inherited Parameter (it would stop following
+                # the class it inherits from)
+                if inherited and parameter.default is inherited_default:
+                    type.__delattr__(mcs, attribute_name)
+                    mcs._clear_params_cache()
+                raise
 
         else:
             type.__setattr__(mcs,attribute_name,value)
